@@ -290,9 +290,13 @@ func (st *stream) readPrefixedStringWithByte(firstByte byte, prefixLen uint8) (s
 	hbit := byte(1) << prefixLen
 	isHuffman := firstByte&hbit != 0
 
+	// The size is chosen by the peer and is bounded only by the declared
+	// length of the frame: do not allocate it up front, let the buffer
+	// grow as the data actually arrives.
+	//
 	// TODO: Avoid allocating here.
-	data := make([]byte, size)
-	if _, err := io.ReadFull(st, data); err != nil {
+	data, err := io.ReadAll(io.LimitReader(st, size))
+	if err != nil || int64(len(data)) != size {
 		return "", errQPACKDecompressionFailed
 	}
 	if isHuffman {
